@@ -2,7 +2,9 @@
 import json
 import os
 import random
+import re
 import shutil
+import time
 from vlib import *
 
 ASSUME = [
@@ -168,8 +170,8 @@ MUTANTS = [
     ("nonce not checked (replay accepted)", "/\\ St[s].hl = fs /\\ St[s].good /\\ St[s].k = rn}", "/\\ St[s].hl = fs /\\ St[s].good}"),
 ]
 
-REACH = ["NeverAux", "NeverFit", "NeverCarry1", "NeverPartialFrame", "NeverWritePartial", "NeverWritePending",
-         "NeverTwoBuffered", "NeverTamperErr", "NeverQuiesce"]
+REACH = ["auxiliary-tail", "frame-continues-in-buffer", "one-byte-carry-over", "frame-delivered-in-pieces", "write-partial-accept",
+         "write-pending", "two-frames-buffered", "attack-error", "quiescence"]
 
 
 def selftest(ctx):
@@ -189,19 +191,23 @@ def selftest(ctx):
         rc, out = run(["tlc", "-workers", "6", "-metadir", ctx.metadir(), "-cleanup", "-noGenerateSpecTE", "-config", cfg,
                        os.path.join(d, "NoisePipeMC.tla")], timeout=600, cwd=d, env={"JAVA_TOOL_OPTIONS": "-Xss512m"})
         bad = "is violated" in out
+        log("  (%.0fs)" % (time.time() - ctx.t0))
         log("selftest model mutant '%s' -> %s" % (name, "property violated (good)" if bad else "NOT DETECTED"))
         ok &= bad
-    # (c) reachability of the interesting situations in the bounded model
-    small = dict(consts, PlanKinds={"body"}, RBufs={1, 3}, ChunkSizes={1, 2})
-    seen = set()
-    for nm, cc in (("w1", dict(small, W=1, WSizes={3, 5})), ("w2", dict(small, W=2, WSizes={1, 3}, MaxWrites=3, MaxPend=0))):
-        rcfg = write_cfg(ctx, "reach_%s.cfg" % nm, cc, ["SPECIFICATION Spec", "INVARIANTS " + " ".join(REACH), "VIEW View", "CHECK_DEADLOCK FALSE"])
-        rc, out = run(["tlc", "-workers", "6", "-continue", "-metadir", ctx.metadir(), "-cleanup", "-noGenerateSpecTE", "-config", rcfg,
+    # (c) reachability of the interesting situations in the bounded model (transition counts)
+    small = dict(consts, PlanKinds={"body"}, RBufs={1, 3}, ChunkSizes={1, 2}, MaxQueue=2)
+    tot = [0] * 9
+    for nm, cc in (("w1", dict(small, W=1, WSizes={3, 5})), ("w2", dict(small, W=2, WSizes={1, 3}, MaxWrites=3, MaxPend=0, RBufs={3}, ChunkSizes={2}))):
+        rcfg = write_cfg(ctx, "reach_%s.cfg" % nm, cc, ["SPECIFICATION ProbeSpec", "ACTION_CONSTRAINT Probe", "POSTCONDITION ProbeReport", "VIEW View", "CHECK_DEADLOCK FALSE"])
+        rc, out = run(["tlc", "-workers", "1", "-metadir", ctx.metadir(), "-cleanup", "-noGenerateSpecTE", "-config", rcfg,
                        os.path.join(SPEC, "NoisePipeMC.tla")], timeout=900, cwd=ctx.work, env={"JAVA_TOOL_OPTIONS": "-Xss512m"})
-        seen |= {r for r in REACH if ("Invariant %s is violated" % r) in out}
-    for r in REACH:
-        log("selftest reachability %s -> %s" % (r, "reached" if r in seen else "NOT REACHED"))
-        ok &= r in seen
+        m = re.search(r'<<"REACH", <<([0-9, ]+)>>', out)
+        if not m:
+            raise ToolError("reachability probe failed:\n" + out[-2000:])
+        tot = [a + int(b) for a, b in zip(tot, m.group(1).split(","))]
+    for r, n in zip(REACH, tot):
+        log("selftest reachability %s -> %d transitions" % (r, n))
+        ok &= n > 0
     # (a) binding demonstration on a good recorded trace
     cargo_build(ctx, ["noisepipe"])
     harness(ctx, "noisepipe", ["--systematic", "--random", 60, "--seed", ctx.seed, "--out", ctx.path("t.ndjson")])
